@@ -244,10 +244,10 @@ Definition check_stages (stages : Z) : Z := if stages <? 1 then 1 else if stages
 (* ------------------------------------------------------------------ FFSynchronizer under the output domain's reset *)
 (* The output domain has a reset signal rst driven from outside (sync reset by default, or
    ClockDomain(async_reset=True)); the flops are `reset_less` (constructor default True) or not.
-   Simulator process of the domain: next = shifted values; if rst: every flop that is not reset_less
-   takes its init.  The process runs at an active clock edge and -- in an async-reset domain -- also
-   when rst rises (with no clock edge; all of the process runs then, so reset_less flops SHIFT:
-   finding F7-async-reset-runs-sync-process). *)
+   Simulator process of the domain at an active clock edge: next = shifted values; if rst: every flop
+   that is not reset_less takes its init.  In an async-reset domain a rise of rst with no clock edge
+   only loads init into the flops that are not reset_less; reset_less flops keep their value
+   (/repo 574e1db; before it the whole process ran and reset_less flops shifted: finding F7). *)
 Inductive revent := Rev (e : event) | Rrst (b : bool).
 
 Record ffr_state := FFR { fr_ff : ff_state; fr_rst : bool }.
@@ -260,7 +260,9 @@ Definition ffr_step (sh : shape) (init : option Z) (async rl : bool) (s : ffr_st
   match e with
   | Rev Eo | Rev Eb => FFR (ffr_process sh init rl (fr_rst s) (fr_ff s)) (fr_rst s)
   | Rev e' => FFR (ff_step sh (fr_ff s) e') (fr_rst s)
-  | Rrst b => FFR (if async && negb (fr_rst s) && b then ffr_process sh init rl b (fr_ff s) else fr_ff s) b
+  | Rrst b => FFR (if async && negb (fr_rst s) && b && negb rl
+                   then FF (ff_in (fr_ff s)) (ff_chain sh (length (ff_flops (fr_ff s))) init)
+                   else fr_ff s) b
   end.
 
 Definition ffr_start (sh : shape) (stages : nat) (init : option Z) (i0 : Z) : ffr_state :=
